@@ -263,6 +263,12 @@ func (c *StreamConn) ArrivedAt(n int) (time.Time, bool) {
 //go:norace
 func (c *StreamConn) IsClosed() bool { return c.closed }
 
+// VerifsimOrder gives map iterations over connections (instrumented build) a
+// fixed order.
+//
+//go:norace
+func (c *StreamConn) VerifsimOrder() int { return c.ID }
+
 //go:norace
 func (c *StreamConn) Unread() int { return len(c.rx.buf) + c.rx.inflight }
 
